@@ -15,6 +15,9 @@ CHECKS={
  "C18":("E3p",EX,"every subset of bounded size of a universe of path/values and tombstones through BuildTree / PrunePathValues / PrunePathMap (v2 and v3), compared with an independent schema-aware flattener and an element-aware subtree relation",
         "universe of 28 paths (20 leaves live or tombstoned, 8 subtree tombstones); subsets of size <=4 (quick) / <=5 (thorough)",
         "bounded-exhaustive input enumeration against a reference (all subsets up to a size bound)"),
+ "C03":("E3h",EX,"every history of Set requests up to a length bound (BFS from every distinct reached state) is run through the real Set handler, stores and controllers to idle; after every acknowledged Set a fixed list of Get queries (PROTO and JSON) is compared with an independent reference model of gNMI semantics; multi-operation requests are re-run under every operation permutation and every single map-iteration-order deviation",
+        "default oldest-first schedule (interleavings belong to C01/C02/C09); alphabet of 19 requests, 21 Get queries; length <=3 (quick) / <=4 (thorough); atomix replaced by simatomix (bound to the real one by ./check conformance)",
+        "bounded-exhaustive history enumeration on the real code against a reference model (explicit-state BFS over request histories, snapshot/restore)"),
 }
 NOT_YET="check not built yet in this session (planned, see DESIGN.md §4); not claimed until its check exists and passes"
 allp=[json.loads(l)['id'] for l in open('/verif/properties.jsonl')]
